@@ -1946,6 +1946,166 @@ def stream_options(ctx):
 
 
 
+# ------------------------------------------------------------------------------------------------
+# N:meta-spec — the specification's domain / normalisation (Spec/CtfileData.lean) against the oracle's and the real code
+# ------------------------------------------------------------------------------------------------
+
+SPEC_LINES = ['', ' ', '   ', 'x', ' padded ', 'M  END', 'M  END  ', '$', '$ 5', 'a$$$$', '$$$$', '$$$$ x', '>', '> <', '>  <z>', '> <z> (1)',
+              '>x', 'a > b', '<k>', '&gt;', 'a&lt;b', '$DTYPE q', '$DATUM r', ' $DATUM s', '$MFMT', '$RFMT x', '$RXN', 'DATUM', 'AT5 MUD',
+              '-', 'text -', '\t', 'tab\there']
+SPEC_KEYS = ['k', ' k ', 'a b', 'a  b', 'a>b', 'a<b', '<>', 'a&b', 'a&gt;b', '&lt;', '$DTYPE', 'M  END', '>  <k>', 'k2', ' k2', 'long key name']
+
+
+def spec_meta(rng):
+    md = {}
+    for _ in range(rng.choice([1, 1, 2, 3])):
+        k = rng.choice(SPEC_KEYS) if rng.random() < 0.7 else rand_text(rng, 1, 8)
+        lines = [rng.choice(SPEC_LINES) if rng.random() < 0.6 else rand_text(rng, 0, 12) for _ in range(rng.choice([1, 1, 2, 3, 5]))]
+        md[k] = '\n'.join(lines)
+    return md
+
+
+def out_of_domain_class(md, fmt):
+    """the recorded limitation (known finding) a dictionary outside the domain falls under, or None"""
+    lines = [l for v in md.values() for l in v.split('\n')]
+    if fmt in ('SDFWrite', 'ESDFWrite'):
+        if any(l.startswith('$$$$') for l in lines):
+            return 'C11/meta/SDF/value-line-starts-with-$$$$'
+        if any(re.match(r'^>([^<]+)<([^>]+)>([^><]*)$', l) for l in lines):
+            return 'C11/meta/SDF/value-line-looks-like-key'
+        if any('&gt;' in k or '&lt;' in k for k in md):
+            return 'C11/meta/SDF/key-contains-escape-literal'
+    else:
+        if any(l.startswith(('$RFMT', '$MFMT')) for l in lines):
+            return 'C11/meta/RDF/value-line-starts-with-record-marker'
+        if any(l.startswith('$DTYPE') for l in lines):
+            return 'C11/meta/RDF/value-line-starts-with-$DTYPE'
+        if any(l.startswith('$DATUM') for l in lines):
+            return 'C11/meta/RDF/value-line-starts-with-$DATUM'
+    return None
+
+
+def real_meta_roundtrip(fmt, md):
+    from chython import smiles
+    m = smiles('C')
+    m.meta.update(md)
+    try:
+        got = read_text(fmt, write_text(fmt, [m]))
+    except Exception as e:
+        return 'crash:' + type(e).__name__
+    if len(got) != 1:
+        return f'records:{len(got)}'
+    return list(_meta_of(got[0]).items())
+
+
+def stream_meta_spec(ctx, n):
+    """N:meta-spec. For each generated dictionary the driver evaluates the specification side (sdMetaOk, rdMetaOk, normMeta);
+    (1) normMeta = the oracle's norm_meta; (2) inside the specification's domain the REAL write->read equals normMeta (the
+    statement of sdf_meta_spec_roundtrip / rdf_meta_spec_roundtrip evaluated on the code) and the oracle's domain holds;
+    (3) outside: the real code either still returns normMeta or the dictionary falls into a recorded limitation."""
+    if not ctx.build_ok:
+        return
+    rng = ctx.rng
+    mds = [dict(md) for md in META_SPECIAL] + [spec_meta(rng) for _ in range(n)] + [rich_meta(rng) for _ in range(n // 4)]
+    mds = [md for md in mds if len({k.strip() for k in md}) == len(md) and all(c in PRINTABLE + '\n\t' for kv in md.items() for x in kv for c in x)
+           and not any('\n' in k for k in md)]
+    got = core.run_driver('C11', ['normmeta ' + ' '.join(map(str, meta_ints(md))) for md in mds])
+    if len(got) != len(mds):
+        ctx.broke('correspondence', 'N:meta-spec', f'driver answered {len(got)} lines for {len(mds)} requests')
+        return
+    bad = 0
+    for md, g in zip(mds, got):
+        ctx.count(('N:meta-spec', tuple(md.items())))
+        ctx.cov['comparisons'] = ctx.cov.get('comparisons', 0) + 1
+        try:
+            _, sd, _, rd, rest = g.split(' ', 4)
+        except ValueError:
+            ctx.broke('correspondence', 'N:meta-spec', f'driver: {g[:200]}')
+            return
+        want = norm_meta(md)
+        if rest != show_meta(want):
+            bad += 1
+            ctx.cov['disagreements_checked'] += 1
+            if bad <= 3:
+                ctx.broke('correspondence', 'N:meta-spec', f'normalisation of {md!r}\n model: {rest}\n oracle: {show_meta(want)}')
+            continue
+        for flag, fmts in ((sd, ('SDFWrite', 'ESDFWrite')), (rd, ('RDFWrite', 'ERDFWrite'))):
+            for fmt in fmts:
+                real = real_meta_roundtrip(fmt, md)
+                same = real == list(want.items())
+                if flag == '1':
+                    ctx.dist('N:in-spec-domain:' + fmt)
+                    # (the oracle's domain additionally leaves out items without text; the specification reads them as absent)
+                    if not in_meta_domain({k: v for k, v in md.items() if norm_value(v)}, fmt):
+                        ctx.broke('relational', 'N:meta-spec', f'{md!r} is inside the specification domain but outside the oracle domain ({fmt})')
+                    if not same:
+                        ctx.fail(f'C11/roundtrip/{fmt}/meta', f'metadata inside the CTfile domain not read back as its normalisation: '
+                                 f'{md!r} -> {real!r}', {'kind': 'meta', 'fmt': fmt, 'meta': md})
+                else:
+                    ctx.dist('N:outside-spec-domain:' + ('same' if same else 'differs') + ':' + fmt)
+                    if not same and not in_meta_domain(md, fmt):
+                        cls = out_of_domain_class(md, fmt)
+                        ctx.dist('N:outside:' + str(cls))
+                        if cls is None and not (isinstance(real, list) and any(k == 'chython_unparsed_metadata' for k, _ in real)):
+                            ctx.broke('relational', 'N:meta-spec', f'{md!r} ({fmt}) is outside the domain, is changed by write->read '
+                                      f'({real!r}) and is neither rejected nor a recorded limitation')
+                    elif not same:
+                        ctx.fail(f'C11/roundtrip/{fmt}/meta', f'metadata inside the oracle domain not read back as its normalisation: '
+                                 f'{md!r} -> {real!r}', {'kind': 'meta', 'fmt': fmt, 'meta': md})
+
+
+# ------------------------------------------------------------------------------------------------
+# C:v3000-continuation — physical-line splitting of the specification vs the reader's joining loop
+# ------------------------------------------------------------------------------------------------
+
+def split_v30(w, body):
+    """Spec/CtfileData.lean `splitV30` in Python: chunks of at most w characters, all but the last end with '-'"""
+    cs = []
+    while len(body) > w and len(cs) < 10000:
+        cs.append(body[:w])
+        body = body[w:]
+        if w == 0:
+            break
+    cs.append(body)
+    return ['M  V30 ' + c + '-\n' for c in cs[:-1]] + ['M  V30 ' + cs[-1] + '\n']
+
+
+def stream_continuation(ctx, n):
+    rng = ctx.rng
+    texts3 = _state.get('texts3') or []
+    if not texts3 or not ctx.build_ok:
+        return
+    b = Batch(ctx, 'C:v3000-continuation')
+    bp = Batch(ctx, 'P:v3000-continued')
+    for _ in range(n):
+        tag, m, text = rng.choice(texts3)
+        lines = mol_block_lines(text)
+        if any('\r' in l for l in lines):
+            continue
+        w = rng.choice([1, 2, 3, 5, 8, 13, 20, 40, 72, 72, 200])
+        out = list(lines[:7])
+        for l in lines[7:]:
+            body = l[7:].rstrip('\n')
+            if not l.startswith('M  V30 ') or not body or body[-1] in ' -\t' or rng.random() < 0.3:
+                out.append(l)
+                continue
+            phys = split_v30(w, body)
+            out += phys
+            b.add(f'v3cont {w} ' + raw(body), f'L {len(phys)} ' + ' '.join(cps(p) for p in phys) + ' J ' + cps(body.strip()),
+                  (tag, 'cont', w), key=(w, body))
+        real0 = real_parse3000(lines)
+        real1 = real_parse3000(out)
+        ctx.dist('C:continued-lines', len(out) - len(lines))
+        if real0 != real1:
+            # property level (records of other programs): the same record spelled with continuation lines reads differently
+            ctx.fail('C11/foreign/V3000/continuation-lines', f'a V3000 block re-spelled with continuation lines (width {w}) is read '
+                     f'differently: {real0[:200]} vs {real1[:200]}', {'kind': 'continuation', 'text': ''.join(lines), 'split': ''.join(out)})
+        bp.add('pmol3000 ' + raw(''.join(out)), real1, (tag, 'continued', w), key=''.join(out))
+    b.run()
+    bp.run()
+
+
+
 def correspond(ctx):
     ctx.cov['programs'] = 20  # MOLWrite/EMOLWrite._write_molecule, SDFWrite/ESDFWrite/RDFWrite/ERDFWrite.write, parse_mol_v2000/v3000,
     # emol.split, parse_rxn_v2000/v3000, postprocess_parsed_molecule, SDFRead/RDFRead._read_block/read_metadata/read_structure,
@@ -1961,6 +2121,8 @@ def correspond(ctx):
         stream_rdf(ctx, texts, 40 if ctx.quick else 1000)
     stream_testfiles(ctx)
     stream_meta(ctx, 300 if ctx.quick else 8000)
+    stream_meta_spec(ctx, 120 if ctx.quick else 3000)
+    stream_continuation(ctx, 60 if ctx.quick else 2000)
     stream_roundtrip(ctx, mols, 25 if ctx.quick else 600)
     stream_options(ctx)
     # core starts the failing-input search only when no failure at all was recorded; failures that belong to known
@@ -2106,6 +2268,9 @@ def probe(inp):
         r = slice_past_end_probe(inp)
     elif kind == 'options':
         r = options_check(inp)
+    elif kind == 'continuation':
+        a, b2 = real_parse3000(inp['text'].splitlines(keepends=True)), real_parse3000(inp['split'].splitlines(keepends=True))
+        r = ('C11/foreign/V3000/continuation-lines', f'read differently: {a[:200]} vs {b2[:200]}', inp) if a != b2 else None
     elif kind == 'string-api':
         from chython.files import mdl_mol, mdl_rxn
         lines = inp['text'].splitlines(keepends=True)
